@@ -297,12 +297,22 @@ func (g *gen) fillTy(t *Ty, fv reflect.Value, depth int) {
 	case "ctor", "bare":
 		g.fillCtor(g.w.s.Ctors[t.Ref], fv, depth+1)
 	case "generic":
-		q := &tg.HelpGetNearestDCRequest{}
-		if r.Bool() {
-			fv.Set(reflect.ValueOf(&tg.UsersGetUsersRequest{ID: []tg.InputUserClass{&tg.InputUserSelf{}}}))
-		} else {
-			fv.Set(reflect.ValueOf(q))
+		// any non-generic constructor of the same package may be the object held
+		var pick *Ctor
+		for tries := 0; tries < 200; tries++ {
+			c := g.w.inMap[r.Intn(len(g.w.inMap))]
+			if c.Pkg == "tg" && !c.Generic && g.w.ctorD[c.Idx] < inf && (depth < g.maxD || len(c.Fields) == 0 || tries > 100) {
+				pick = c
+				break
+			}
 		}
+		if pick == nil {
+			fv.Set(reflect.ValueOf(&tg.HelpGetNearestDCRequest{}))
+			return
+		}
+		obj := g.w.newObj[pick.Idx]()
+		g.fillCtor(pick, reflect.ValueOf(obj).Elem(), depth+1)
+		fv.Set(reflect.ValueOf(obj))
 	case "vec":
 		n := 0
 		if depth < g.maxD && g.budget > 0 {
@@ -467,7 +477,17 @@ func (w *world) showTy(b *strings.Builder, t *Ty, fv reflect.Value) {
 	case "ctor", "bare":
 		w.show(b, w.s.Ctors[t.Ref], fv)
 	case "generic":
-		b.WriteString("generic")
+		if fv.IsNil() {
+			b.WriteByte('_')
+			return
+		}
+		el := fv.Elem()
+		c := w.byType[el.Type().Elem()]
+		if c == nil {
+			b.WriteString("unknown:" + el.Type().String())
+			return
+		}
+		w.show(b, c, el.Elem())
 	case "vec":
 		b.WriteByte('[')
 		for i := 0; i < fv.Len(); i++ {
@@ -651,6 +671,17 @@ func (w *world) showTyPre(b *strings.Builder, t *Ty, fv reflect.Value) {
 			w.showTyPre(b, t.Elem, fv.Index(i))
 		}
 		b.WriteByte(']')
+	case "generic":
+		if fv.IsNil() {
+			b.WriteByte('_')
+			return
+		}
+		el := fv.Elem()
+		if c := w.byType[el.Type().Elem()]; c != nil {
+			w.showPre(b, c, el.Elem())
+		} else {
+			b.WriteString("unknown")
+		}
 	default:
 		w.showTy(b, t, fv)
 	}
@@ -666,4 +697,21 @@ func decodeIfaceSafe(fn func(*bin.Buffer) (bin.Object, error), data []byte) (obj
 	}()
 	obj, err = fn(b)
 	return obj, len(b.Buf), err, nil
+}
+
+// genericTag returns "@<ctor>" naming the constructor of the object a generic field of obj holds
+// (the decode parameter of the model), or "" when there is none.
+func (w *world) genericTag(ct *Ctor, obj bin.Object) string {
+	for i, f := range ct.Fields {
+		if f.Ty.K == "generic" {
+			fv := reflect.ValueOf(obj).Elem().Field(i)
+			if fv.IsNil() {
+				return ""
+			}
+			if c := w.byType[fv.Elem().Type().Elem()]; c != nil {
+				return "@" + strconv.Itoa(c.Idx)
+			}
+		}
+	}
+	return ""
 }
